@@ -486,4 +486,101 @@ theorem evalCallExpr_simF {n : Nat} (hE : FClaimE n) (e : Expr) (he : Ff "" e = 
   | sym x => exact evalCallExpr_sym_simF x (by simpa [Ff] using he) n hrel
   | _ => exact evalCallExpr_nonsym_simF hE _ he (fun x hx => by cases hx) hrel
 
+/-! ## The operands of a call -/
+
+/-- the callee declares no lazy formals (or is unknown) -/
+def NoLazy (fo : Option FnObj) : Prop := ∀ f, fo = some f → f.hasLazyFormals = false
+
+/-- operands of a call: `PrepareCallExprArgs` against `evalArgs` (no lazy positions) -/
+def FClaimA (n : Nat) : Prop :=
+  ∀ args, FaList args = true → ∀ (fo : Option FnObj), NoLazy fo → ∀ (i : Nat) m s rs env, RelF m s rs env →
+    match Ref.evalArgs n args i (fun _ => false) env rs with
+    | .ok vs' rs' => ∃ (M : Nat) (s' : St) (m' : Nat → Nat) (vs : List Val), (∀ fuel, M ≤ fuel → (prepareArgs fuel fo i args).run s = (.ok (), s'))
+        ∧ s'.data = vs.reverse.map some ++ s.data ∧ s'.pc = s.pc ∧ vs' = vs.map (trf m') ∧ RelF m' s' rs' env
+        ∧ MExt s m m' ∧ RExt rs rs' ∧ FrameF s s' ∧ ∀ v ∈ vs, VOk m' s' rs' v
+    | .err rs' => ∃ M, ∀ fuel, M ≤ fuel → ∃ se, (prepareArgs fuel fo i args).run s = (.error .err, se)
+        ∧ se.trace = rs'.trace
+    | .timeout => True
+    | .brk _ _ => False
+    | .cont _ _ => False
+
+theorem fclaimA_succ {n : Nat} (hE : FClaimE n) (hA : FClaimA n) : FClaimA (n + 1) := by
+  intro args hargs fo hfo i m s rs env hrel
+  match args with
+  | [] =>
+    rw [Ref.evalArgs]
+    · refine ⟨1, s, m, [], fun fuel hf => ?_, by simp, rfl, rfl, hrel, MExt.refl s m, RExt.refl rs, FrameF.refl s,
+        fun v hv => by cases hv⟩
+      obtain ⟨f, rfl⟩ : ∃ f, fuel = f + 1 := ⟨fuel - 1, by omega⟩
+      rw [prepareArgs]
+      · rfl
+      · omega
+    · omega
+  | e :: es =>
+    rw [FaList] at hargs
+    simp only [Bool.and_eq_true] at hargs
+    rw [Ref.evalArgs]
+    simp only [Bool.false_eq_true, if_false]
+    have hunf : ∀ fuel, (prepareArgs (fuel + 1) fo i (e :: es)).run s
+        = match (evalCallExpr fuel e).run s with
+          | (.ok v, s1) => (prepareArgs fuel fo (i + 1) es).run (s1.jmp s1.pc (some v :: s1.data))
+          | (.error flt, s1) => (.error flt, s1) := by
+      intro fuel
+      rw [prepareArgs.eq_def]
+      cases fo with
+      | none =>
+        simp only [Bool.false_eq_true, if_false, run_bind]
+        rcases (evalCallExpr fuel e).run s with ⟨r, s1⟩
+        cases r with
+        | ok v => simp only [run_pushData]; rfl
+        | error flt => rfl
+      | some f =>
+        simp only [hfo f rfl, Bool.and_false, Bool.false_and, Bool.false_eq_true, if_false, run_bind]
+        rcases (evalCallExpr fuel e).run s with ⟨r, s1⟩
+        cases r with
+        | ok v => simp only [run_pushData]; rfl
+        | error flt => rfl
+    have he := evalCallExpr_simF hE e hargs.1 hrel
+    cases h1 : Ref.eval n e env rs with
+    | ok v' rs1 =>
+      rw [h1] at he
+      obtain ⟨M1, s1, m1, v, hM1, hd1, hp1, hv1, rel1, hm1, ext1, fr1, hcl1⟩ := he
+      simp only
+      have ih := hA es hargs.2 fo hfo (i + 1) m1 (s1.jmp s1.pc (some v :: s1.data)) rs1 env (rel1.jmp _ _)
+      cases h2 : Ref.evalArgs n es (i + 1) (fun _ => false) env rs1 with
+      | ok vs' rs2 =>
+        rw [h2] at ih
+        obtain ⟨M2, s2, m2, vs, hM2, hd2, hp2, hvs2, rel2, hm2, ext2, fr2, hcl2⟩ := ih
+        have hv12 : trf m2 v = trf m1 v := VOk.tr_ext hcl1 hm2
+        refine ⟨max M1 M2 + 1, s2, m2, v :: vs, fun fuel hf => ?_, ?_, by rw [hp2]; exact hp1, ?_, rel2,
+          hm1.trans hm2 fr1.fnsLen, ext1.trans ext2, fr1.trans ((FrameF.jmp _ _ _).trans fr2), fun w hw => ?_⟩
+        · obtain ⟨f, rfl⟩ : ∃ f, fuel = f + 1 := ⟨fuel - 1, by omega⟩
+          rw [hunf f, hM1 f (by omega)]
+          exact hM2 f (by omega)
+        · rw [hd2]; show _ ++ (some v :: s1.data) = _; rw [hd1]; simp
+        · rw [List.map_cons, hv12, hv1, hvs2]
+        · rcases List.mem_cons.mp hw with rfl | hw
+          · exact VOk.ext hcl1 ((Frame.jmp _ _ _).trans fr2.toFrame) ext2 hm2
+          · exact hcl2 w hw
+      | err rs2 =>
+        rw [h2] at ih
+        obtain ⟨M2, hM2⟩ := ih
+        refine ⟨max M1 M2 + 1, fun fuel hf => ?_⟩
+        obtain ⟨f, rfl⟩ : ∃ f, fuel = f + 1 := ⟨fuel - 1, by omega⟩
+        obtain ⟨se, hse, htr⟩ := hM2 f (by omega)
+        exact ⟨se, by rw [hunf f, hM1 f (by omega)]; exact hse, htr⟩
+      | timeout => trivial
+      | brk l rs2 => rw [h2] at ih; exact ih
+      | cont l rs2 => rw [h2] at ih; exact ih
+    | err rs1 =>
+      rw [h1] at he
+      obtain ⟨M1, hM1⟩ := he
+      refine ⟨M1 + 1, fun fuel hf => ?_⟩
+      obtain ⟨f, rfl⟩ : ∃ f, fuel = f + 1 := ⟨fuel - 1, by omega⟩
+      obtain ⟨se, hse, htr⟩ := hM1 f (by omega)
+      exact ⟨se, by rw [hunf f, hse], htr⟩
+    | timeout => trivial
+    | brk l rs1 => rw [h1] at he; exact he
+    | cont l rs1 => rw [h1] at he; exact he
+
 end ZygoVerif.Sim
